@@ -316,7 +316,8 @@ fn check_time_src(obs: &mut Obs, src: &Src, probe: &Probe, hist: &[String], prom
         Src::IntervalAt(off, _) => (*off).max(0) as u64,
         _ => unreachable!(),
       };
-      let specified_first = !matches!(src, Src::IntervalAt(off, _) if *off <= 0);
+      // an instant that is not in the future means: fire at once
+      let specified_first = true;
       for (k, x) in recs.iter().enumerate() {
         if x.note != Note::N(V::I(k as i64)) {
           fail(obs, "values", format!("item {k} is {:?}", x.note));
@@ -475,6 +476,34 @@ fn relay_job(kind: Relay, script_len: usize, len: usize, devs: u32) -> Job {
   .devs(devs)
 }
 
+/// from_stream over a stream that has `n` items ready at once
+fn burst_job(n: usize) -> Job {
+  let pipe = Pipe::S(Src::StreamCount(n));
+  Job::new(format!("from_stream burst of {n} ready items"), move |_ch, obs| {
+    let mut r = Run::start(&pipe, Form::Local);
+    r.drain();
+    for _ in 0..3 {
+      r.tick();
+    }
+    obs.checks += 1;
+    let got = r.probe.notes();
+    let mut exp: Vec<Note> = (0..n as i64).map(|i| Note::N(V::I(i))).collect();
+    exp.push(Note::C);
+    if got != exp {
+      obs.fail(
+        "c08:relay-incomplete:FromStream",
+        format!(
+          "a stream with {n} ready items: nothing left to run, {} notifications relayed, last {:?}",
+          got.len(),
+          got.last()
+        ),
+      );
+    }
+    obs.delivered = got.len() as u64;
+    obs.note_outcome(&got.len());
+  })
+}
+
 pub fn plan(tier: Tier) -> Plan {
   let (len, devs, jumps, slen, rlen): (usize, u32, Vec<u64>, usize, usize) = match tier {
     Tier::Quick => (9, 2, vec![1, 2, 3], 4, 8),
@@ -500,6 +529,10 @@ pub fn plan(tier: Tier) -> Plan {
   for k in [Relay::FromFuture, Relay::FromFutureResult, Relay::FromStream, Relay::FromStreamResult] {
     jobs.push(relay_job(k, slen, rlen, devs));
   }
+  // long bursts: many items ready within one poll of the relay task
+  for n in [31usize, 32, 33, 100] {
+    jobs.push(burst_job(n));
+  }
   Plan {
     jobs,
     finish: Finish {
@@ -508,7 +541,7 @@ pub fn plan(tier: Tier) -> Plan {
       engine: "E1 opseq".into(),
       rule: "interval / interval_at / timer / timer_at with periods, delays and instants from {1,2,3} ticks (instants also 0 and in the past) next to a competing interval in the same pool: every environment sequence up to the length bound over {advance 1..k ticks, run the i-th ready task}, where running a task other than the first ready one or advancing the clock while a task is ready costs one deviation (bounded); from_future(_result) / from_stream(_result) over every script up to the length bound of {item, pending-until-woken, fail, end} with {run, advance, wake} steps; oracle after every step: consecutive integers, never earlier than due / one period after the previous, exactly on time whenever no deviation and no jump occurred, relays deliver exactly the scripted prefix and everything once nothing is left to run; non-trivial = something was delivered".into(),
       bounds: json!({"env_len": len, "deviations": devs, "jumps": jumps, "script_len": slen, "relay_env_len": rlen, "sources": srcs.len()}),
-      assumptions: vec!["interval_at / timer_at with an instant that is not in the future: only `not earlier than subscription` is asserted for the first tick".into()],
+      assumptions: vec!["interval_at / timer_at with an instant that is not in the future fire at once (the code turns such an instant into a zero delay, and the crate has a test saying so for timer_at)".into()],
     },
   }
 }
